@@ -76,6 +76,7 @@ let str_out = function
   | OSlices (off, h, t) -> Printf.sprintf "slices %d %s %s" (int_of_nat off) (str_list h) (str_list t)
   | ODst vs -> "dst " ^ str_list vs
   | OPanic -> "panic"
+  | OPending -> "pending"
   | OBad -> "bad"
 
 let str_lev = function
@@ -189,6 +190,62 @@ let spec_file (path : string) =
            cur := Some a'
      done
    with End_of_file -> ());
+  close_in ic
+
+
+(* ---------- async histories: `hold <op>`, `repoll K`, `dropfut K`, `task n`, futures polled once, direct methods ---------- *)
+let parse_aop (s : astate) (l : string) : aop =
+  let w = List.filter (fun x -> x <> "") (String.split_on_char ' ' l) in
+  match w with
+  | "hold" :: rest -> AHold (parse_op (String.concat " " rest))
+  | ["repoll"; k] -> ARepoll (stage_of k)
+  | ["dropfut"; k] -> ADropFut (stage_of k)
+  | ["task"; n] -> ASetTask (nat_of_int (int_of_string n))
+  | _ -> let o = parse_op l in (match future_of o with Some _ -> APoll o | None -> ADirect o)
+
+let aobs (s : astate) : string =
+  let m = s.base in
+  let o = obs m in
+  let f k = if m.freed || not (it_of k m).here then "-" else (match tget k s.wk with Some t -> string_of_int (int_of_nat t) | None -> "-") in
+  Printf.sprintf "%s | wk=%s,%s,%s | wakes=%d" o (f P) (f W) (f C) (int_of_nat s.wakes)
+
+let arun_file (path : string) =
+  let ic = open_in path in
+  let cur : astate option ref = ref None in
+  let lost = ref [] in
+  let finish () =
+    (match !cur with
+     | Some s -> let m = s.base in
+       let inslots = if m.freed then [] else List.filter (fun v -> v <> N0) m.slots in
+       let live = List.sort compare (List.map int_of_n (if m.owned then inslots @ !lost else [])) in
+       Printf.printf "live=[%s]\n" (String.concat "," (List.map string_of_int live))
+     | None -> ());
+    cur := None; lost := [] in
+  (try
+     while true do
+       let l = String.trim (input_line ic) in
+       if l = "" || l.[0] = '#' then (if l <> "" then (finish (); print_endline l))
+       else if String.length l > 3 && String.sub l 0 3 = "cfg" then begin
+         finish ();
+         match init (parse_cfg l) with
+         | None -> print_endline "init panic"
+         | Some m -> let s = a_init_state m in cur := Some s; print_endline ("init ok | " ^ aobs s ^ " | ev=")
+       end else
+         match !cur with
+         | None -> print_endline "skip"
+         | Some s ->
+           let (s', (o, evs)) = astep s (parse_aop s l) in
+           List.iter (function LLost v -> lost := v :: !lost | _ -> ()) evs;
+           let es = List.sort compare (List.filter_map str_lev evs) in
+           (* oracle for C15: which kept futures would complete if polled now *)
+           let sat k = (match tget k s'.held with
+               | Some _ -> (match astep s' (ARepoll k) with (_, (OPending, _)) -> "0" | _ -> "1")
+               | None -> "-") in
+           Printf.printf "%s | %s | ev=%s ## sat=%s%s%s\n" (str_out o) (aobs s') (String.concat "," es) (sat P) (sat W) (sat C);
+           cur := Some s'
+     done
+   with End_of_file -> ());
+  finish ();
   close_in ic
 
 (* ------------------------------------------------------------------ generators ------------- *)
@@ -305,6 +362,7 @@ let gen_op (g : genst) (s : mstate) : string =
     end
   end
 
+let init_state_of cfg = match init cfg with None -> None | Some m -> Some (a_init_state m)
 let lens = [1; 2; 2; 3; 3; 3; 4; 4; 5; 5; 7; 8; 13; 16; 31; 64]
 
 let force_owned = ref false
@@ -434,6 +492,74 @@ let gen_life seed count =
        with Exit -> ())
   done
 
+
+(* model arand <seed> <count> <min> <max> : async histories (ConcurrentHeapRB through split_async / split_mut_async) *)
+let gen_arand seed count lo hi =
+  seed_rng seed;
+  for h = 1 to count do
+    let g = { nextv = 100 } in
+    let owned = chance 25 in
+    let len = pick [1; 2; 2; 3; 3; 4; 5; 8] in
+    let st = pick [2; 3; 3] in
+    let init = if owned then fresh_vals g len else (if chance 50 then List.init len (fun _ -> 0) else fresh_vals g len) in
+    Printf.printf "# arand seed=%d n=%d\ncfg kind=async store=heap stages=%d item=%s ctor=from init=%s\n" seed h st (if owned then "owned" else "plain") (csv init);
+    let cfg = { c_init = List.map n_of_int init; c_worker = (st = 3); c_heap = true; c_owned = owned } in
+    match init_state_of cfg with
+    | None -> ()
+    | Some s0 ->
+      let s = ref s0 in
+      let n = lo + rnd (hi - lo + 1) in
+      (try
+         for _ = 1 to n do
+           let m = !s.base in
+           if m.freed then raise Exit;
+           let ks = stages m in
+           if ks = [] then raise Exit;
+           let k = pick ks in
+           let heldk = (match tget k !s.held with Some _ -> true | None -> false) in
+           let isdet = (it_of k m).det in
+           let a = avail_i k m in
+           let small () = if chance 70 then rnd (a + 1) else rnd (len_i m + 2) in
+           let futop () =
+             match k with
+             | P -> (match rnd 8 with
+                 | 0 | 1 | 2 -> Printf.sprintf "push %d" (List.hd (fresh_vals g 1))
+                 | 3 | 4 -> let vs = fresh_vals g (small ()) in if owned then "pushclone " ^ csv vs else pick ["pushslice " ^ csv vs; "pushclone " ^ csv vs]
+                 | 5 -> pick ["nextitem"; "nextinit"; "get1 P"]
+                 | 6 -> Printf.sprintf "nextslices %d" (small ())
+                 | _ -> pick ["getavail P"; Printf.sprintf "getn P %d" (small ()); Printf.sprintf "getmult P %d" (rnd 4)])
+             | W -> pick ["get1 W"; Printf.sprintf "getn W %d" (small ()); "getavail W"; Printf.sprintf "getmult W %d" (rnd 4)]
+             | C -> (match rnd 9 with
+                 | 0 | 1 -> if owned then "popmove" else pick ["pop"; "popmove"]
+                 | 2 -> if owned then "cloneitem" else pick ["copyitem"; "cloneitem"]
+                 | 3 -> if owned then Printf.sprintf "cloneslice %d" (small ()) else Printf.sprintf "%s %d" (pick ["copyslice"; "cloneslice"]) (small ())
+                 | 4 -> "peek" | 5 -> Printf.sprintf "peekslice %d" (small ()) | 6 -> "peekavail"
+                 | _ -> pick ["get1 C"; Printf.sprintf "getn C %d" (small ()); "getavail C"]) in
+           let t =
+             if heldk then pick ["repoll " ^ sname k; "repoll " ^ sname k; "dropfut " ^ sname k; Printf.sprintf "task %d" (rnd 3)]
+             else if isdet then
+               (let (total, off) = window k m in
+                match rnd 6 with
+                | 0 | 1 -> Printf.sprintf "adv %s %d" (sname k) (rnd (a + 1))
+                | 2 -> Printf.sprintf "goback %s %d" (sname k) (rnd (off + 1))
+                | 3 -> "sync " ^ sname k
+                | _ -> "attach " ^ sname k)
+             else match rnd 12 with
+               | 0 -> "avail " ^ sname k
+               | 1 -> Printf.sprintf "adv %s %d" (sname k) (rnd (a + 1))
+               | 2 -> if k = P then "avail P" else "reset " ^ sname k
+               | 3 -> "detach " ^ sname k
+               | 4 -> Printf.sprintf "task %d" (rnd 3)
+               | 5 | 6 | 7 -> "hold " ^ futop ()
+               | 8 -> if a > 0 && not owned then Printf.sprintf "edit %s %d %d" (sname k) (rnd a) (1000 * (1 + rnd 9)) else "avail " ^ sname k
+               | _ -> futop () in
+           print_endline t;
+           let (s', _) = astep !s (parse_aop !s t) in
+           s := s'
+         done
+       with Exit -> ())
+  done
+
 (* ---------- exhaustive transition coverage (G-exh) over the index / cache / detached layer ---------- *)
 let key (s : mstate) : string = obs s ^ (if s.hasW then "W" else "-")
   ^ String.concat "" (List.map (fun k -> if (it_of k s).det then "d" else "a") [P; W; C])
@@ -533,6 +659,8 @@ let gen_bfs maxlen limit =
 let () =
   match Array.to_list Sys.argv with
   | _ :: "seq" :: files -> List.iter run_file files
+  | _ :: "aseq" :: files -> List.iter arun_file files
+  | [_; "arand"; seed; count; lo; hi] -> gen_arand (int_of_string seed) (int_of_string count) (int_of_string lo) (int_of_string hi)
   | _ :: "spec" :: files -> List.iter spec_file files
   | [_; "rand"; seed; count; lo; hi] -> gen_rand (int_of_string seed) (int_of_string count) (int_of_string lo) (int_of_string hi)
   | [_; "rando"; seed; count; lo; hi] -> force_owned := true; gen_rand (int_of_string seed) (int_of_string count) (int_of_string lo) (int_of_string hi)
